@@ -240,6 +240,10 @@ func VerifCloseBeforeRun() {
 //verif:harness prop=C12 name=fatal_iff_over_grace threads=5 sched=delay preempt=2 t_preempt=3 unwind=10 witness=lenient
 func VerifFatalIffOverGrace() {
 	grace := 5 * time.Second
+	if zzverif.Bool("zero_grace_period") {
+		// a grace period of zero is a grace period: a closer that takes any time outlasts it
+		grace = 0
+	}
 	start := zzverif.TimeFromNanos(1_000_000_000)
 	clk := zzverifstubs.NewClock(start)
 	mgr := NewRunnerCloserManager(vNopLogger(), &grace, func(ctx context.Context) error { return nil })
@@ -258,7 +262,9 @@ func VerifFatalIffOverGrace() {
 	go func() { done <- mgr.Run(context.Background()) }()
 	zzverif.WaitQuiescent()
 	if slow {
-		zzverif.Assert(fatal == 0, "no_fatal_before_grace")
+		if grace > 0 {
+			zzverif.Assert(fatal == 0, "no_fatal_before_grace")
+		}
 		clk.Advance(grace)
 		zzverif.WaitQuiescent()
 		zzverif.Assert(fatal == 1, "fatal_when_closers_outlast_grace")
@@ -266,7 +272,9 @@ func VerifFatalIffOverGrace() {
 	} else {
 		clk.Advance(grace)
 		zzverif.WaitQuiescent()
-		zzverif.Assert(fatal == 0, "no_fatal_when_closers_finish_in_time")
+		if grace > 0 {
+			zzverif.Assert(fatal == 0, "no_fatal_when_closers_finish_in_time")
+		}
 	}
 	zzverif.Assert(<-done == nil, "run_returns_nil")
 	zzverif.Cover("fatal_iff_over_grace_done")
